@@ -1,7 +1,8 @@
 From Coq Require Import ExtrOcamlBasic.
-From ChibiV Require Import Common.ExtractBase C04.Model C04.Model2 C04.Model3 C04.Model4 C04.Model5 C04.Model6 C04.Model7 C04.Model8 C04.Spec C04.Spec2 C04.SpecFloat.
+From ChibiV Require Import Common.ExtractBase C04.Model C04.Model2 C04.Model3 C04.Model4 C04.Model5 C04.Model6 C04.Model7 C04.Model8 C04.Model10 C04.Spec C04.Spec2 C04.SpecFloat C04.SpecCmp.
 Extraction "model.ml" ext_base compare_abs add_digits sub_digits bignum_add bignum_sub
   fxadd fxsub fxmul fxdiv fxrem normalize num_add num_sub num_mul vm_add vm_sub bignum_mul quot_rem
   num_quotient num_remainder vm_quotient vm_remainder bignum_expt write_bignum_digits read_bignum_digits read_number_digits num_compare sqrt_loop ratio_normalize ratio_add ratio_mul ratio_div ratio_compare ratio_sub ratio_round ratio_trunc ratio_floor ratio_ceiling vm_mul
   spec1 spec2 specq1 specq2 spec_radix of_radix specc2 spec_q spec_radix_q spec_radix_c specc_expt
-  spec_exact_bits spec_inexact_bits b64_decode inexact_to_exact xres_frac g_add g_sub g_mul g_div nval.
+  spec_exact_bits spec_inexact_bits b64_decode inexact_to_exact xres_frac g_add g_sub g_mul g_div nval
+  x_compare vm_cmp spec_cmpx2 spec_cmpx_sgn spec_cmpx_all spec_cmpx3_all spec_maxmin.
